@@ -460,7 +460,8 @@ type loopShape struct {
 func loopShapeOf(atoms map[string]bool, coll string) loopShape {
 	l := "len(" + coll + ")"
 	var s loopShape
-	s.Zero = atoms["!(0 < "+l+")"]
+	// an explicit emptiness test says the same as a loop that did not run
+	s.Zero = atoms["!(0 < "+l+")"] || atoms[l+" == 0"] || atoms[l+" < 1"]
 	rangeGen := atoms["(i* + 1) < "+l]
 	idxGen := atoms["i* < "+l]
 	s.Gen = rangeGen || idxGen
